@@ -16,7 +16,8 @@ func callOfCallTo(fn *types.Func) evPred {
 		if ev.Kind != pathsim.EvCall || ev.Call == nil {
 			return false
 		}
-		inner, ok := ast.Unparen(ev.Call.Fun).(*ast.CallExpr)
+		// f(x)() directly, or w := f(x); w()
+		inner, ok := deref(c.Info, ev.Call.Fun).(*ast.CallExpr)
 		if !ok {
 			return false
 		}
@@ -297,7 +298,7 @@ func init() {
 				case *ast.AssignStmt:
 					if len(x.Rhs) == 1 && len(x.Lhs) == 2 {
 						if outer, ok := ast.Unparen(x.Rhs[0]).(*ast.CallExpr); ok {
-							if inner, ok := ast.Unparen(outer.Fun).(*ast.CallExpr); ok && r.P.CalleeFunc(info, inner) == ckpt {
+							if inner, ok := deref(info, outer.Fun).(*ast.CallExpr); ok && r.P.CalleeFunc(info, inner) == ckpt {
 								handle = prog.IdentObj(info, x.Lhs[0])
 							}
 							// an extracted helper whose result is the checkpoint's result (`return db.Checkpoint(id)()`)
